@@ -15,7 +15,7 @@
   instruction stayed inside the bytes the caller owns, and nothing was stored anywhere but in the destination and the
   scratch block.  The theorems below state exactly that, for ALL round keys, nonces of any length, texts and additional
   data (below 2^32 bytes each, the interpreter's region size), tag sizes up to 16, any initial register and buffer
-  contents — also for the in-place calls.  This replaces, for `sealAsm` and `openAsm`, the bounded computational tie
+  contents — and for Seal also in place (`sealAsm_inplace_memory_safe`; for Open in place see `C07Asm.openAsm_inplace_eq_spec`, whose `.ok` conclusion says the same).  This replaces, for `sealAsm` and `openAsm`, the bounded computational tie
   between the listing and the hand-written access model of Props/C11.lean by a statement for all lengths, and gives
   "Seal/Open do not modify nonce, input, additional data or key" for the machine code (the pre-repair `openAsm`, which
   XORed into the ciphertext — finding G — is an error under this semantics).
@@ -97,6 +97,18 @@ theorem openAsm_memory_safe (g v k rk : List Nat) (t : Nat) (dst nonce ct aad tm
   | none => rw [hO] at h; exact ⟨0, dst, h, fun _ => rfl, Or.inl rfl⟩
   | some p => rw [hO] at h; exact ⟨1, _, h, fun h0 => absurd h0 (by decide), Or.inr rfl⟩
 
+/-- **sealAsm called in place** (dst = the plaintext's own array): memory safe, only that array and the scratch written -/
+theorem sealAsm_inplace_memory_safe (g v k rk : List Nat) (t : Nat) (pt tl nonce ur aad tmp : List Nat)
+    (hG : g.length = 16) (hV : v.length = 32) (hK : k.length = 8) (hrk : rk.length = 32) (hrkb : ∀ x ∈ rk, x < 2 ^ 32)
+    (hnl : nonce.length < 2 ^ 32) (hnb : ∀ x ∈ nonce, x < 2 ^ 8) (hab : ∀ x ∈ aad, x < 2 ^ 8) (hall : aad.length < 2 ^ 32)
+    (hpb : ∀ x ∈ pt, x < 2 ^ 8) (ht : t ≤ 16) (htl : tl.length = t) (hdl32 : pt.length + t < 2 ^ 32)
+    (htmp : tmp.length = 32) (hur : ur.length < 2 ^ 32) (fuel : Nat)
+    (hfuel : 34 * (nonce.length / 16) + 34 * (aad.length / 16) + 700 * (pt.length / 256) + 6500 < fuel) :
+    ∃ out, runSeal fuel (sealStateInPlace g v k rk t pt tl nonce ur aad tmp) = .ok out ∧ out.length = pt.length + t := by
+  refine ⟨_, C06AsmSeal.sealAsm_inplace_eq_spec g v k rk t pt tl nonce ur aad tmp hG hV hK hrk hrkb hnl hnb hab hall hpb ht htl
+    hdl32 htmp hur fuel hfuel, ?_⟩
+  rw [List.length_map, Proofs.GCM.sealGCM_length (encE_length rk) ht, toB_length]
+
 end SMGo.Props.C11Asm
 
 #print axioms SMGo.Props.C11Asm.write_readonly_errors
@@ -105,3 +117,4 @@ end SMGo.Props.C11Asm
 #print axioms SMGo.Props.C11Asm.entry_regions
 #print axioms SMGo.Props.C11Asm.sealAsm_memory_safe
 #print axioms SMGo.Props.C11Asm.openAsm_memory_safe
+#print axioms SMGo.Props.C11Asm.sealAsm_inplace_memory_safe
